@@ -14,7 +14,11 @@ use std::collections::HashMap;
 
 pub struct C17;
 
-const FRESH: &[&str] = &["pragmatic", "OPENQASMx", "s1", "dtx", "im_", "π2", "Δq", "变量", "inv2", "ns_", "measured", "e3", "xF", "qubits", "_", "__a", "gat", "letter", "dimension", "O"];
+const FRESH: &[&str] = &[
+    "pragmatic", "OPENQASMx", "s1", "dtx", "im_", "π2", "Δq", "变量", "inv2", "ns_", "measured", "e3", "xF", "qubits", "_", "__a", "gat", "letter", "dimension", "O",
+    // keyword / directive look-alikes followed by a digit or an underscore, leading underscores, unit look-alikes
+    "pragma2", "pragma7x", "pragma_1", "_q", "_tmp", "void1", "u", "μs", "µ", "gate1", "def_", "if0", "include2", "b0", "o7", "x0F", "e", "E1", "im2",
+];
 
 fn is_reserved(n: &str) -> bool {
     BUILTIN_CONSTS.contains(&n) || n == "U" || STDGATES.iter().any(|g| g.0 == n)
@@ -265,7 +269,7 @@ fn snapshot(prog: &[S], lay: &Layout) -> Result<Snapshot, String> {
 // punctuation characters that would be a syntax error when separated by a blank.)
 
 const TOK_EXTRA: &[&str] = &["ns", "im", "dt", "us", "µs", "b", "q", "0x1F", "2", "3", "x", "true", "pi", "$1", "\"1_0\"", "'01'", "1e3", "2.", ".5", "10", ".25", "ns", "im"];
-const TOK_SEPS_B: &[&str] = &["/**/", " /* c */ ", "\n", "\t", "  ", "/* a *//* b */", "//x\n", " /***/ ", "/*/ y */"];
+const TOK_SEPS_B: &[&str] = &["/**/", " /* c */ ", "\n", "\t", "  ", "/* a *//* b */", "//x\n", " /***/ ", "/*/ y */", "\u{000B}", "\u{000C}\u{0085}", "\u{2028}", "\r\n"];
 
 fn tok_alphabet() -> Vec<String> {
     let mut v: Vec<String> = super::c01::full_alphabet()
@@ -581,7 +585,17 @@ impl Property for C17 {
             }
         };
         let mut g = MG::new(&mut r, cfg);
-        let prog = g.program();
+        let mut prog = g.program();
+        // now and then an include of a file that does not exist (a diagnostic, not a syntax error):
+        // what was diagnosed before it stays where it was
+        if g.r.chance(1, 4) && !prog.is_empty() {
+            let at = g.r.usize(prog.len() + 1);
+            let after_annotation = at > 0 && matches!(prog[at - 1].k, SK::Annotation(_));
+            if !after_annotation {
+                let inc = g.s(SK::Include("no_such_file_c17.inc".into()));
+                prog.insert(at, inc);
+            }
+        }
         obs.fp.str(&skel_program(&prog));
         let out = match guard(|| check(&prog, seed)) {
             Ok(o) => o,
